@@ -128,4 +128,8 @@ def run(ctx: core.Ctx) -> int:
                      ("TRUST-SIG", "trusted sympy call signatures")):
         ctx.rule(_rid, _t)
     _tmp.check_python_block(ctx, it.p.modules["python"])
+    # no module-level / class-level mutable state shared between filters: one filter's construction or update must not reach another's (shared with C01)
+    from . import c15 as _c15pp
+    ctx.rule("PY-PURE", "no module-level / class-level mutable state shared between filters (shared with C01)")
+    _c15pp.gen_pure(ctx, {"python": "py/formak/python.py", "common": "py/formak/common.py"}, rule="PY-PURE", floor=40)
     return core.finish(ctx, explanation="E2 axis typing + E3 normal forms of sensor_model's records and results", **META)
